@@ -128,7 +128,9 @@ FIXED_FREEZE = [(0, False, ['localshuffle', 'map', 'reshuffle'], ['prefetchN']),
                 (0, False, ['filter', 'reshuffle'], ['catch']),
                 (0, False, ['lazyapply', 'reshuffle'], ['prefetchN_catch']),
                 (3, False, ['localshuffle', 'reshuffle'], ['prefetchN']),
-                (1, True, ['filter', 'reshuffle'], ['lazyapply_top'])]
+                (1, True, ['filter', 'reshuffle'], ['lazyapply_top']),
+                # F22: fetches through the frozen copy of a reshuffle are counted at the stage below it
+                (4, True, ['map', 'reshuffle'], ['catch']), (5, False, ['map', 'map', 'reshuffle'], ['lazyapply_top']), (3, False, ['map', 'reshuffle'], ['catch', 'map'])]
 
 
 def freeze_family(ld, r, count):
@@ -148,11 +150,17 @@ def freeze_family(ld, r, count):
             if _ < len(FIXED_FREEZE):
                 n, keyed, lower, upper = FIXED_FREEZE[_]        # the repaired finding F20 and its neighbours replay first
 
+            counters = []
+
             def build():
+                del counters[:]
                 rng = np.random.RandomState(seed)
                 ds = ld.new({f'k{i}': i for i in range(n)} if keyed else list(range(n)))
                 for st in lower + upper:
-                    if st == 'map': ds = ds.map(_inc)
+                    if st == 'map':
+                        cf = _CountInc()
+                        counters.append(cf)
+                        ds = ds.map(cf)
                     elif st == 'reshuffle': ds = ds.shuffle(True, rng=rng)
                     elif st == 'shuffle1': ds = ds.shuffle(False, rng=rng)
                     elif st == 'localshuffle': ds = ds.shuffle(True, rng=rng, buffer_size=3)
@@ -178,6 +186,15 @@ def freeze_family(ld, r, count):
                 gen_a.obs_iter(prof, False)              # a second profiled epoch
                 if snapshot(target) != snap:
                     fails.append(f'profiling new(range({n}){" keyed" if keyed else ""}).{".".join(lower + upper)} (seed {seed}) modified the wrapped pipeline object (hidden state of a stage changed)')
+                # truthful counts also behind frozen copies: the wrapper around every mapped stage reports as many hits as its
+                # function was applied (single-threaded consumers only: the counters are plain integers)
+                if wrapped[0] != 'ctor' and not any(u.startswith('prefetchN') for u in upper):
+                    for w in _walk_wrappers(prof):
+                        mf = getattr(w.input_dataset, 'map_function', None)
+                        if isinstance(mf, _CountInc) and w.hit_count[0] - w.hit_count[1] != mf.calls:      # a fetch that fails below the stage does not reach its function
+                            fails.append(f'profiling new(range({n}){" keyed" if keyed else ""}).{".".join(lower + upper)} (seed {seed}), two epochs: the wrapper of a mapped stage reports '
+                                         f'{w.hit_count[0]} hits ({w.hit_count[1]} of them failed), its function was applied {mf.calls} times')
+                            break
             except Exception as e:
                 wrapped = ('ctor', type(e).__name__)
             same = repr(plain) == repr(wrapped) or (plain[1] is not None and wrapped[0] != 'ctor' and wrapped[1] is not None
@@ -248,6 +265,27 @@ def mutating_family(ld, r, count):
                             fails.append(f'profiling changes ds[{i}] of a {mode} source under an in-place modifying map function on a repeated fetch: {b} vs plain {a}')
                             break
     return fails
+
+
+class _CountInc:
+    """x + 1, counting its applications (per object; copies of the pipeline share the object)"""
+    def __init__(self): self.calls = 0
+    def __call__(self, x):
+        self.calls += 1
+        return x + 1
+
+
+def _walk_wrappers(d, seen=None):
+    seen = set() if seen is None else seen
+    if id(d) in seen:
+        return
+    seen.add(id(d))
+    if type(d).__name__ == 'ProfilingDataset':
+        yield d
+    if hasattr(d, 'input_dataset'):
+        yield from _walk_wrappers(d.input_dataset, seen)
+    for x in getattr(d, 'input_datasets', []) or []:
+        yield from _walk_wrappers(x, seen)
 
 
 def _inc(x): return x + 1
